@@ -394,8 +394,42 @@ func c08Dispatch(c *Ctx) {
 	}
 	c.Check("C08.B6", fk+":error-passed", hcalls[0].Instr.Pos(), passOK, "handleError receives Decode's error", "handleError is not given the decode error")
 	// after handleError: return, not continue
-	cont := existsPath(fn, hcalls[0].Instr, func(in ssa.Instruction) bool { return in == dec[0].Instr }, nil)
-	c.Check("C08.B6", fk+":stop-after-error", hcalls[0].Instr.Pos(), cont == nil, "Dispatch stops decoding this buffer after an error", "Dispatch keeps decoding the same (corrupt) buffer after an error: it can loop forever")
+	// after handleError: return - or go on only where the buffer is shown to have got shorter than it was before this Decode
+	// (a codec that returned the request frame together with the error has consumed it). An edge proves progress when it is
+	// the "newLen < oldLen" side of a comparison of two Len() results, the old one taken before Decode in this iteration.
+	progressEdge := func(from, to *ssa.BasicBlock) bool {
+		ifi, ok := from.Instrs[len(from.Instrs)-1].(*ssa.If)
+		if !ok || len(from.Succs) != 2 {
+			return false
+		}
+		for _, g := range normGuard(Guard{Cond: ifi.Cond, True: to == from.Succs[0], If: ifi}) {
+			bo, ok := g.Cond.(*ssa.BinOp)
+			if !ok {
+				continue
+			}
+			lx, okx := bo.X.(*ssa.Call)
+			ly, oky := bo.Y.(*ssa.Call)
+			if !okx || !oky || methodName(lx.Common()) != "Len" || methodName(ly.Common()) != "Len" {
+				continue
+			}
+			op := bo.Op
+			if !g.True {
+				op = negOp(op)
+			}
+			// lx <op> ly ; which is the old one (dominates Decode, precedes it)?
+			oldX := instrDominates(lx, dec[0].Instr)
+			oldY := instrDominates(ly, dec[0].Instr)
+			if oldY && !oldX && op == token.LSS {
+				return true
+			}
+			if oldX && !oldY && op == token.GTR {
+				return true
+			}
+		}
+		return false
+	}
+	cont := existsPathEdges(fn, hcalls[0].Instr, func(in ssa.Instruction) bool { return in == dec[0].Instr }, nil, func(from, to *ssa.BasicBlock) bool { return !progressEdge(from, to) })
+	c.Check("C08.B6", fk+":stop-after-error", hcalls[0].Instr.Pos(), cont == nil, "Dispatch stops decoding this buffer after an error, or goes on only where the buffer is shown to have got shorter", "Dispatch keeps decoding the same (corrupt) buffer after an error without having shown that the buffer got shorter: it can loop forever")
 	// handleError: every path ends in OnDecodeError (error reply on that stream) or netConn.Close
 	hk := funcKey(he)
 	isEnd := func(in ssa.Instruction) bool {
